@@ -29,6 +29,12 @@ class ImportNode(BaseNode):
             path.append(node.name)     
             node.name = Sign.SEPARATOR.join(path)
             node.indent = self.indent
+            if getattr(node, 'value', None) is not None:
+                # the copy carries its value: its reference, function or expression
+                # is not resolved a second time in the importing environment
+                node.value_ref = None
+                node.value_fn = None
+                node.value_expr = None
             node.isource = self.source
             nodes_new.append(node)
         return nodes_new
